@@ -131,6 +131,76 @@ example : (exC.updateAllCrc.blocks.map (·.crc)) = [some [0xac, 0x72], none] := 
 example : exC.updateAllCrc.checkAllCrc = [] := C08_check_update_all exC
 example : exC.checkAllCrc = [0, 2] := by decide +kernel
 
+/-! ### transmit: whatever happened to the primary block before, it leaves with its own CRC -/
+
+/-- `send_bundle` ends with `update_all_crc()` for every bundle it transmits — locally sourced,
+    relayed, or a fragment whose primary block was rewritten (IS_FRAGMENT, offset, total length) and
+    still holds the all-zero placeholder or the CRC of the unfragmented primary block (`stale`).
+    The transmitted primary block carries the CRC of *its own* zeroed encoding, independent of
+    `stale`, and every block passes its check. -/
+theorem C08_send_any_primary (p : Primary) (bs : List Canonical) (stale : Option Bytes) :
+    let out := ({ primary := { p with crc := stale }, blocks := bs } : Bundle).updateAllCrc
+    out.checkAllCrc = []
+    ∧ out.primary.crc = (if p.crcType == 0 then none else some p.crcValue)
+    ∧ out.primary.zeroed = p.zeroed := by
+  refine ⟨C08_check_update_all _, ?_, ?_⟩
+  · simp only [Bundle.updateAllCrc, Primary.updateCrc]
+    split <;> simp [Primary.crcValue_setCrc]
+  · simp only [Bundle.updateAllCrc, Primary.updateCrc]
+    split <;> rfl
+
+/-- fragment of a CRC-16 bundle: rewritten primary with the stale CRC of the unfragmented one fails
+    the check (what an independent receiver sees when the CRC is not recomputed), and passes after
+    `updateCrc` -/
+def exFragSrc : Primary := ({ crcType := 1, ts := ⟨1, 1⟩, lifetime := 9 } : Primary).updateCrc
+def exFrag : Primary := { exFragSrc with flags := 1, fragOff := 0, totalLen := 40 }
+example : exFragSrc.checkCrc = true ∧ exFrag.checkCrc = false ∧ exFrag.updateCrc.checkCrc = true
+    ∧ exFrag.updateCrc.crc ≠ exFragSrc.crc := by decide +kernel
+
+/-! ### a CRC field that is not a byte string of the right width is a CRC failure -/
+
+/-- For a block with CRC type 1 or 2, a missing CRC value (CBOR null, or — as `BstrField.m2i`
+    yields `None` for it — a text string) or a value of the wrong length never passes `check_crc`;
+    for CRC type 0 any value present fails. Canonical and primary blocks. -/
+theorem C08_crc_field_malformed (t : Nat) (ht : t = 1 ∨ t = 2) :
+    (∀ c : Canonical, c.crcType = t →
+      (c.crc = none ∨ ∃ d, c.crc = some d ∧ d.length ≠ crcWidth t) → c.checkCrc = false)
+    ∧ (∀ p : Primary, p.crcType = t →
+      (p.crc = none ∨ ∃ d, p.crc = some d ∧ d.length ≠ crcWidth t) → p.checkCrc = false) := by
+  have ht0 : (t == 0) = false := by rcases ht with rfl | rfl <;> decide
+  constructor
+  · intro c h1 h
+    simp only [Canonical.checkCrc, h1, ht0, Bool.false_eq_true, if_false]
+    rcases h with h | ⟨d, hd, hl⟩
+    · simp [h]
+    · rw [hd]
+      cases hb : (some d == some c.crcValue)
+      · rfl
+      · simp only [beq_iff_eq, Option.some.injEq] at hb
+        have := crcOf_length c.crcType c.zeroed.enc
+        rw [Canonical.crcValue] at hb
+        rw [← hb, h1] at this
+        exact absurd this hl
+  · intro p h1 h
+    simp only [Primary.checkCrc, h1, ht0, Bool.false_eq_true, if_false]
+    rcases h with h | ⟨d, hd, hl⟩
+    · simp [h]
+    · rw [hd]
+      cases hb : (some d == some p.crcValue)
+      · rfl
+      · simp only [beq_iff_eq, Option.some.injEq] at hb
+        have := crcOf_length p.crcType p.zeroed.enc
+        rw [Primary.crcValue] at hb
+        rw [← hb, h1] at this
+        exact absurd this hl
+
+/-- the decoder hands such fields to the check as "no value": `62 xx xx` (text) and `f6` (null) in
+    the CRC slot of a CRC-16 block decode, and the decoded block fails its check -/
+example : (decCanonical [0x86, 0x01, 0x01, 0x00, 0x01, 0x41, 0x61, 0x62, 0x31, 0x32]).map
+    (fun x => (x.1.crc, x.1.checkCrc)) = some (none, false) := by decide +kernel
+example : (decCanonical [0x86, 0x01, 0x01, 0x00, 0x01, 0x41, 0x61, 0xf6]).map
+    (fun x => (x.1.crc, x.1.checkCrc)) = some (none, false) := by decide +kernel
+
 /-! ### the receive gate -/
 
 /-- A bundle with any failing block leaves the agent state (seen set, queues, … — every component
@@ -159,6 +229,17 @@ theorem C08_type0 (c : Canonical) (h : c.crcType = 0) : c.checkCrc = c.crc.isNon
 example : recvGate (recvSeen .dtnNone) [] exC = ([], []) := C08_gate _ _ _ (by decide +kernel)
 example : recvGate (recvSeen .dtnNone) [] exC.updateAllCrc
     = ([exC.ident], [.accepted exC.ident]) := by decide +kernel
+
+/-- … hence the gate drops every bundle that has such a block. -/
+theorem C08_gate_malformed_crc {σ ε : Type} (rest : σ → Bundle → σ × List ε) (s : σ) (b : Bundle)
+    (c : Canonical) (hc : c ∈ b.blocks) (ht : c.crcType = 1 ∨ c.crcType = 2)
+    (h : c.crc = none ∨ ∃ d, c.crc = some d ∧ d.length ≠ crcWidth c.crcType) :
+    recvGate rest s b = (s, []) := by
+  apply C08_gate
+  intro hnil
+  have := ((checkAllCrc_nil_iff b).1 hnil).2 c hc
+  rw [(C08_crc_field_malformed c.crcType ht).1 c rfl h] at this
+  exact absurd this (by decide)
 
 /-! ### GF(2) linearity and burst detection (generic width, any message length) -/
 
